@@ -101,6 +101,8 @@ def check_subst(s, mapping, env, env_names, getonly=False):
         got = ("syntax", e)
     except Exception as e:  # noqa
         return ("subst:internal:%s" % type(e).__name__, repr(e))
+    if got[0] == "missing" and not (hasattr(got[1], "name") and hasattr(got[1], "source")):
+        return ("subst:error-without-name-or-source", repr(got[1]))
     if not getonly and m != before:
         return ("subst:mapping-mutated", "%r -> %r" % (before, m))
     if want[0] == "unspec":
